@@ -219,7 +219,10 @@ def _str_to_set(
 def _str_to_set_of_expr(value: Any) -> set[Expression]:
     value = _str_to_set(value)
     result = set()
-    for expression in value:
+    # Expressions of equal meaning ('MIT OR 0BSD', '0BSD OR MIT') are equal,
+    # so only the first one makes it into the set. Let that not depend on the
+    # order in which a set of strings happens to be walked.
+    for expression in sorted(value, key=str):
         try:
             result.add(_LICENSING.parse(expression))
         except (ExpressionError, ParseError) as error:
